@@ -296,4 +296,165 @@ theorem bfWrite_length {w : Nat} (e : Endian) (sg : Bool) (lsb msb : Nat) (mn mx
           omega
         · cases hc
 
+/-! ### State after `new()` -/
+
+section AfterNew
+open MemoryProtection
+
+/-- declared right of byte `i` after initialisation: the `access =` of the LAST register (in
+initialisation order) whose range covers `i`, else what was there before -/
+def specRight (regs : List RegInit) (i : Nat) (dflt : AccessRight) : AccessRight :=
+  regs.foldl (fun acc r => if r.address ≤ i ∧ i < r.address + r.length then r.access else acc) dflt
+
+theorem specRight_append (a b : List RegInit) (i : Nat) (d : AccessRight) :
+    specRight (a ++ b) i d = specRight b i (specRight a i d) := by
+  simp [specRight, List.foldl_append]
+
+theorem initProtection_cells (regs : List RegInit) (mp : MemoryProtection)
+    (hin : ∀ r ∈ regs, r.address + r.length ≤ mp.capacity) :
+    ∃ mp', initProtection regs mp = .ok mp' ∧ mp'.capacity = mp.capacity ∧
+      mp'.memorySize = mp.memorySize ∧ ∀ i, mp'.cell i = specRight regs i (mp.cell i) := by
+  induction regs generalizing mp with
+  | nil => exact ⟨mp, rfl, rfl, rfl, fun i => rfl⟩
+  | cons r rs ih =>
+    obtain ⟨mp1, h1, hs1, hl1, hc1⟩ := setAccessRightFrom_ok r.access mp r.address r.length (hin r (by simp))
+    have hcap1 : mp1.capacity = mp.capacity := by simp [capacity, hl1]
+    obtain ⟨mp2, h2, hcap2, hs2, hc2⟩ := ih mp1 (fun x hx => by rw [hcap1]; exact hin x (by simp [hx]))
+    refine ⟨mp2, ?_, by omega, by omega, fun i => ?_⟩
+    · simp only [initProtection, setAccessRightWithRange, rangeCount_le (Nat.le_add_right _ _),
+        Nat.add_sub_cancel_left, h1]
+      exact h2
+    · rw [hc2, hc1]
+      simp only [specRight, List.foldl_cons]
+
+theorem initRaw_append (a b : List RegInit) (raw : Bytes) :
+    initRaw (a ++ b) raw = match initRaw a raw with
+      | .ok raw1 => initRaw b raw1
+      | .err e => .err e
+      | .panic => .panic := by
+  induction a generalizing raw with
+  | nil => rfl
+  | cons r rs ih =>
+    simp only [List.cons_append, initRaw]
+    cases r.init with
+    | none => exact ih raw
+    | some w =>
+      simp only
+      cases w raw with
+      | ok raw1 => exact ih raw1
+      | err e => rfl
+      | panic => rfl
+
+/-- the initialisers of `rs` keep the image length and the bytes `a .. a+n` -/
+def KeepRange (rs : List RegInit) (a n : Nat) : Prop :=
+  ∀ q ∈ rs, ∀ w, q.init = some w → ∀ x x', w x = .ok x' →
+    x'.length = x.length ∧ (x'.drop a).take n = (x.drop a).take n
+
+theorem initRaw_keeps (rs : List RegInit) (raw raw' : Bytes) (a n : Nat) (hk : KeepRange rs a n)
+    (h : initRaw rs raw = .ok raw') :
+    raw'.length = raw.length ∧ (raw'.drop a).take n = (raw.drop a).take n := by
+  induction rs generalizing raw with
+  | nil => cases h; exact ⟨rfl, rfl⟩
+  | cons r rs ih =>
+    simp only [initRaw] at h
+    split at h
+    · exact ih raw (fun q hq => hk q (by simp [hq])) h
+    · next w hw =>
+      split at h
+      · next raw1 h1 =>
+        obtain ⟨h2, h3⟩ := hk r (by simp) w hw raw raw1 h1
+        obtain ⟨h4, h5⟩ := ih raw1 (fun q hq => hk q (by simp [hq])) h
+        exact ⟨by omega, by rw [h5, h3]⟩
+      · cases h
+
+theorem initFragments_eq (fs : List Fragment) (raw raw' : Bytes) (mp mp' : MemoryProtection)
+    (h : initFragments fs raw mp = .ok (raw', mp')) :
+    initRaw (fs.flatMap (·.regs)) raw = .ok raw' ∧ initProtection (fs.flatMap (·.regs)) mp = .ok mp' := by
+  induction fs generalizing raw mp with
+  | nil => cases h; exact ⟨rfl, rfl⟩
+  | cons f fs ih =>
+    simp only [initFragments] at h
+    split at h
+    · cases h
+    · cases h
+    · next mp1 h1 =>
+      split at h
+      · cases h
+      · cases h
+      · next raw1 h2 =>
+        obtain ⟨h3, h4⟩ := ih raw1 mp1 h
+        constructor
+        · simp only [List.flatMap_cons, initRaw_append, h2]; exact h3
+        · simp only [List.flatMap_cons]
+          clear h2 h3 h
+          generalize f.regs = rs at h1 ⊢
+          induction rs generalizing mp with
+          | nil => cases h1; exact h4
+          | cons r rs ih2 =>
+            rw [List.cons_append]
+            rw [initProtection] at h1 ⊢
+            split at h1
+            · next mpa ha => exact ih2 mpa h1
+            · cases h1
+            · cases h1
+
+theorem read_congr {α} (r : Register α) (x y : Bytes) (hl : x.length = y.length)
+    (hs : (x.drop r.address).take r.length = (y.drop r.address).take r.length) : r.read x = r.read y := by
+  simp only [Register.read, slice, Register.rangeEnd, hl, Nat.add_sub_cancel_left, hs]
+
+/-- cells after `new()` -/
+theorem new_cells (frags : List Fragment) (m : Mem) (n : Nat) (hn : memorySize frags = some n)
+    (hin : ∀ f ∈ frags, ∀ r ∈ f.regs, r.address + r.length ≤ n) (h : Mem.new frags = .ok m) :
+    ∀ i, m.protection.cell i = specRight (frags.flatMap (·.regs)) i .NA := by
+  unfold Mem.new at h
+  rw [hn] at h
+  simp only at h
+  split at h
+  · next raw mp h1 =>
+    cases h
+    obtain ⟨_, h3⟩ := initFragments_eq _ _ _ _ _ h1
+    have hc := new_capacity n
+    obtain ⟨mp', h4, _, _, h5⟩ := initProtection_cells (frags.flatMap (·.regs)) (MemoryProtection.new n)
+      (fun r hr => by
+        obtain ⟨f, hf, hrf⟩ := List.mem_flatMap.mp hr
+        have := hin f hf r hrf; omega)
+    rw [h3] at h4; cases h4
+    intro i
+    rw [h5, new_cell]
+  · cases h
+  · cases h
+
+/-- `new()` then a typed read returns the declared init value, provided no later initialiser
+touches the register's bytes -/
+theorem new_read_init {α} (frags : List Fragment) (m : Mem) (h : Mem.new frags = .ok m)
+    (reg : Register α) (v : α) (pre post : List RegInit) (r : RegInit)
+    (hsplit : frags.flatMap (·.regs) = pre ++ r :: post) (hr : r.init = some (reg.write v))
+    (hrt : ∀ x x', reg.write v x = .ok x' → reg.read x' = .ok v)
+    (hpost : KeepRange post reg.address reg.length) : m.read reg = .ok v := by
+  unfold Mem.new at h
+  split at h
+  · cases h
+  · next n hn =>
+    split at h
+    · next raw mp h1 =>
+      cases h
+      obtain ⟨h2, _⟩ := initFragments_eq _ _ _ _ _ h1
+      rw [hsplit, initRaw_append] at h2
+      split at h2
+      · next raw1 hpre =>
+        simp only [initRaw, hr] at h2
+        split at h2
+        · next raw2 hw =>
+          obtain ⟨hl, hs⟩ := initRaw_keeps post raw2 raw reg.address reg.length hpost h2
+          show reg.read raw = .ok v
+          rw [read_congr reg raw raw2 hl hs]
+          exact hrt _ _ hw
+        · cases h2
+      · cases h2
+      · cases h2
+    · cases h
+    · cases h
+
+end AfterNew
+
 end CamVerif.Memory
